@@ -318,27 +318,31 @@ def clause_f(ctx, P):
             sites.append((g, b, t))
     ctx.require(len(sites) >= 2, "C05f.anchor", f.name, f.loc(), "%d insertions into the result of evict_expired_services" % len(sites))
     for k, (g, b, t) in enumerate(sites):
+        # (A) only under `is_empty()` of the vector fetched from self.srv
+        e_srv = guard_edges(P, g, lambda atom, outcome, bb: atom[0] == "call" and name_matches(strip_generics(atom[1]), "Vec::is_empty") and outcome is True and
+                            any(x[0] == "call" and method(strip_generics(x[1])) in ("get_mut", "get") and len(x[2]) >= 1 and
+                                any(is_field_expr(y, "srv", "DnsCache") for y in strip(x[2][0])) for x in walk(atom)))
+        okA = bool(e_srv) and must_pass_edges(g, b, e_srv)
+        # (B) only for an expired record of the PTR vector: under is_expired(now) == true, where the record comes from
+        # DnsCache.ptr — the predicate of a retain over it, or a loop / filter over it in the function itself
+        OTHER = ("txt", "srv", "addr", "nsec")
         if g is f:
-            # in the body: only under `is_empty()` of the vector fetched from self.srv
-            edges = guard_edges(P, g, lambda atom, outcome, bb: atom[0] == "call" and name_matches(strip_generics(atom[1]), "Vec::is_empty") and outcome is True and
-                                any(x[0] == "call" and method(strip_generics(x[1])) in ("get_mut", "get") and len(x[2]) >= 1 and
-                                    any(is_field_expr(y, "srv", "DnsCache") for y in strip(x[2][0])) for x in walk(atom)))
-            ok = bool(edges) and must_pass_edges(g, b, edges)
-            why = "reported only when the vector fetched from DnsCache.srv became empty"
+            e_exp = guard_edges(P, g, lambda atom, outcome, bb: atom[0] == "call" and method(strip_generics(atom[1])) == "is_expired" and outcome is True and
+                                expr_mentions_field(atom, "ptr", "DnsCache") and not any(expr_mentions_field(atom, m, "DnsCache") for m in OTHER))
+            okB = bool(e_exp) and must_pass_edges(g, b, e_exp)
         else:
-            # in a closure: the retain over the PTR records, under is_expired(now) == true
-            edges = guard_edges(P, g, lambda atom, outcome, bb: atom[0] == "call" and method(strip_generics(atom[1])) == "is_expired" and outcome is True)
-            ok = bool(edges) and must_pass_edges(g, b, edges)
-            # the closure is the predicate of a retain on the PTR vector being iterated
+            e_exp = guard_edges(P, g, lambda atom, outcome, bb: atom[0] == "call" and method(strip_generics(atom[1])) == "is_expired" and outcome is True)
+            okB = bool(e_exp) and must_pass_edges(g, b, e_exp)
             parent_ok = False
             trf = tracer(P, f)
             for bb, tt in f.calls():
-                if method(cname(tt)) == "retain" and any(x[0] == "closure" and x[1] == g.name for a in tt["args"][1:] for x in walk(trf.operand(a, endpos(f, bb)))):
-                    base = iter_base(arg_expr(trf, f, bb, tt, 0))
+                if method(cname(tt)) in ("retain", "filter", "for_each") and any(x[0] == "closure" and x[1] == g.name for a in tt["args"][1:] for x in walk(trf.operand(a, endpos(f, bb)))):
                     recv = arg_expr(trf, f, bb, tt, 0)
-                    parent_ok = expr_mentions_field(recv, "ptr", "DnsCache") and not any(expr_mentions_field(recv, m, "DnsCache") for m in ("txt", "srv", "addr", "nsec"))
-            ok = ok and parent_ok
-            why = "reported only for an expired record of the PTR vector (retain predicate over DnsCache.ptr)"
+                    parent_ok = expr_mentions_field(recv, "ptr", "DnsCache") and not any(expr_mentions_field(recv, m, "DnsCache") for m in OTHER)
+            okB = okB and parent_ok
+        ok = okA or okB
+        why = ("reported only when the vector fetched from DnsCache.srv became empty" if okA else
+               "reported only for an expired record of the PTR vector")
         ctx.ob("C05f.removal-only-for-ptr-or-srv", "%s|result.insert#%d" % (f.name, k + 1), ok, g.loc(b),
                why if ok else "an instance is put into the removal set without its PTR or its last SRV having expired")
 
